@@ -422,8 +422,8 @@ func runRedisLayer(r *ev.Run, workers int) {
 	r.RequireAtLeast("redis_consistent_get_current_checked", q(3000, 45000))
 	r.RequireAtLeast("redis_consistent_get_all_checked", q(2000, 30000))
 	r.RequireAtLeast("redis_warm_monotonicity_checked_with_earlier_offers", q(40, 600))
-	r.RequireAtLeast("redis_op_destroy_rotated_shown_index", q(40, 600))
-	r.RequireAtLeast("redis_destroy_rotated_shown_index_removed_exactly_the_listed_key", q(30, 450))
+	r.RequireAtLeast("redis_op_destroy_rotated_shown_index", q(25, 400))
+	r.RequireAtLeast("redis_destroy_rotated_shown_index_removed_exactly_the_listed_key", q(20, 300))
 	r.RequireAtLeast("redis_op_destroy_rotated_unshown_index", q(10, 150))
 	r.RequireAtLeast("redis_op_destroy_current", q(30, 450))
 	r.RequireAtLeast("redis_decrypt_checked_rotated_key", q(20, 300))
